@@ -246,7 +246,7 @@ package tls
 //@ spec witTail(x, vmax) = vmax == VersionTLS13 ==> len(x) >= 8 && ((isKS(x[len(x)-3]) && isSV(x[len(x)-1])) || (isKS(x[len(x)-4]) && isSV(x[len(x)-2])))
 
 //@ func generateRandomizedSpec
-//@   property C09 C02
+//@   property C09 C02 C13
 //@   requires id != nil
 //@   requires table: tableOK()
 //@   opaque tls.NewPRNGSeed
